@@ -35,24 +35,8 @@ type Case struct {
 	Insts []Inst          `json:"insts"`
 }
 
-// every string format of generator/formats.go that the reference validator knows
-// under the same name ("ObjectId"/"objectid", aliases of bsonobjectid, are unknown to
-// the strfmt registry: no oracle - the defect they expose is replayed from the corpus)
-var allFormats = []string{"date", "date-time", "uuid", "uuid3", "uuid4", "uuid5", "email", "uri", "hostname", "ipv4", "ipv6", "byte", "password", "duration", "mac", "creditcard", "hexcolor", "rgbcolor", "ssn", "isbn", "isbn10", "isbn13", "bsonobjectid", "ulid"}
-
-// ModelSpec draws a document whose subject is its definitions.
-func ModelSpec(t *rapid.T, nameGen func(*rapid.T, string) string) J {
-	cfg := &specgen.SpecCfg{
-		Schema: specgen.Opts{Name: nameGen, MaxDepth: 3, AllOf: true, AddlProps: true, Defaults: true,
-			XNullable: true, ReadOnly: true, MinMaxProps: true, Formats: allFormats, Descr: true},
-		MinDefs: 4, MaxDefs: 9, MinPaths: 1, MaxPaths: 1, MaxParams: 0, AcyclicRefs: true,
-		Methods: []string{"get"},
-	}
-	return specgen.Spec(t, cfg)
-}
-
 func gen(t *rapid.T) Case {
-	doc := ModelSpec(t, specgen.PlainName)
+	doc := specgen.ModelSpec(t, specgen.ModelOpts{Name: specgen.PlainName, Composite: true})
 	c := Case{Spec: specgen.JSONBytes(doc)}
 	defs, _ := doc["definitions"].(J)
 	names := make([]string, 0, len(defs))
